@@ -1,1 +1,180 @@
-// verification harness include for semaphore_shared (see /verif/DESIGN.md)
+// Included inside `mod if_alloc` of /repo/src/sync/semaphore.rs under cfg(futures_intrusive_verif).
+// Shared (Arc) semaphore flavour: a compact history interpreter through the public API with the C05 / C06 / C17
+// oracles (the state machine is the same SemaphoreState; what differs is the Option<Arc> handling of the future
+// and the releaser that owns a handle).
+
+pub(crate) mod verif_sem_shared {
+    use super::*;
+    use crate::verif::common::*;
+    use core::mem::ManuallyDrop;
+
+    macro_rules! oracle {
+        ($p:expr, $mask:expr, $cond:expr, $msg:literal) => {
+            if ($p & $mask) != 0 {
+                assert!($cond, $msg);
+            }
+        };
+    }
+
+    pub const K: usize = 2;
+    pub const W_PENDING_THEN_READY: u32 = 1;
+
+    /// cfg bits 0-1: fairness (0 unfair, 1 fair, 2 symbolic).
+    pub fn hist<M: RawMutex, S: Src>(s: &mut S, cfg: u32, n: usize, p: u32) -> u32 {
+        let fair = if cfg & 3 == 2 { s.flag() } else { cfg & 3 == 1 };
+        let init = s.below(3) as usize;
+        let sem = GenericSharedSemaphore::<M>::new(fair, init);
+        let (c0a, c0b, c1a, c1b) = (WakeCell::new(), WakeCell::new(), WakeCell::new(), WakeCell::new());
+        let mut q = [1 + s.below(2) as usize, 1 + s.below(2) as usize];
+        let mut f0 = ManuallyDrop::new(sem.acquire(q[0]));
+        let mut f1 = ManuallyDrop::new(sem.acquire(q[1]));
+        let mut r0: ManuallyDrop<Option<GenericSharedSemaphoreReleaser<M>>> = ManuallyDrop::new(None);
+        let mut r1: ManuallyDrop<Option<GenericSharedSemaphoreReleaser<M>>> = ManuallyDrop::new(None);
+        let mut held = [0usize; K];
+        let mut has = [false; K];
+        let mut alive = [true; K];
+        let mut pending = [false; K];
+        let mut done = [false; K];
+        let mut lw = [0u8; K];
+        let mut snap = [0u32; K];
+        let mut stamp = [0u32; K];
+        let mut clock = 0u32;
+        let mut fresh = [true; K];
+        let mut ledger: usize = init;
+        let mut bits = 0u32;
+        if (p & P18) != 0 { arm_alloc(); }
+        let mut step = 0;
+        while step < n && !s.exhausted() {
+            step += 1;
+            let op = s.below(10);
+            if op < 4 {
+                let i = (op / 2) as usize;
+                let w = op % 2;
+                s.assume(alive[i] && !done[i]);
+                s.assume(i == 0 || !fresh[0]);
+                s.assume(!fresh[i] || w == 0);
+                fresh[i] = false;
+                let f = match i { 0 => &mut f0, _ => &mut f1 };
+                let cell = match (i, w) { (0, 0) => &c0a, (0, _) => &c0b, (_, 0) => &c1a, (_, _) => &c1b };
+                let woken_before = pending[i] && {
+                    let lc = match (i, lw[i]) { (0, 0) => &c0a, (0, _) => &c0b, (_, 0) => &c1a, (_, _) => &c1b };
+                    lc.n() > snap[i]
+                };
+                let waker = ManuallyDrop::new(mk_waker(cell));
+                let mut cx = Context::from_waker(&waker);
+                let r = unsafe { Pin::new_unchecked(&mut **f) }.poll(&mut cx);
+                match r {
+                    Poll::Ready(rel) => {
+                        oracle!(p, P05, ledger >= q[i], "C05 shared semaphore: acquire completed with fewer permits available than requested");
+                        if pending[i] { bits |= W_PENDING_THEN_READY; }
+                        ledger = ledger.wrapping_sub(q[i]);
+                        pending[i] = false;
+                        done[i] = true;
+                        has[i] = true;
+                        held[i] = q[i];
+                        let slot = match i { 0 => &mut r0, _ => &mut r1 };
+                        unsafe { core::ptr::write(&mut **slot, Some(rel)) };
+                    }
+                    Poll::Pending => {
+                        if !pending[i] || (woken_before && !fair) {
+                            clock += 1;
+                            stamp[i] = clock;
+                        }
+                        pending[i] = true;
+                        lw[i] = w;
+                        snap[i] = cell.n();
+                    }
+                }
+            } else if op < 6 {
+                let i = (op - 4) as usize;
+                s.assume(alive[i] && pending[i]);
+                let f = match i { 0 => &mut f0, _ => &mut f1 };
+                unsafe { ManuallyDrop::drop(f) };
+                alive[i] = false;
+                pending[i] = false;
+            } else if op < 8 {
+                let j = (op - 6) as usize;
+                s.assume(has[j]);
+                let slot = match j { 0 => &mut r0, _ => &mut r1 };
+                let rel = unsafe { core::ptr::read(&**slot) };
+                unsafe { core::ptr::write(&mut **slot, None) };
+                match rel { Some(rel) => drop(rel), None => s.assume(false) }
+                ledger += held[j];
+                has[j] = false;
+                held[j] = 0;
+            } else if op == 8 {
+                let a = 1 + s.below(2) as usize;
+                sem.release(a);
+                ledger += a;
+            } else {
+                let a = s.below(3) as usize;
+                match sem.try_acquire(a) {
+                    Some(mut rel) => {
+                        oracle!(p, P05, ledger >= a, "C05 shared semaphore: try_acquire succeeded with fewer permits available than requested");
+                        if fair && a > 0 { oracle!(p, P07, !(pending[0] || pending[1]), "C07 shared fair semaphore: try_acquire overtook a pending request"); }
+                        // keep the ledger small: give the permits back at once through disarm + release
+                        let got = rel.disarm();
+                        oracle!(p, P05, got == a, "C05 shared semaphore: disarm() did not return the granted amount");
+                        drop(rel);
+                        oracle!(p, P05, sem.permits() == ledger - a, "C05 shared semaphore: a disarmed releaser gave permits back");
+                        sem.release(a);
+                    }
+                    None => { oracle!(p, P07, a > 0, "C07 shared semaphore: try_acquire(0) failed"); }
+                }
+            }
+            oracle!(p, P18, alloc_events() == 0, "C18 shared semaphore: an operation allocated or freed heap memory");
+            oracle!(p, P05, sem.permits() == ledger, "C05 shared semaphore: permits() differs from initial + released - outstanding");
+            let wk0 = pending[0] && (if lw[0] == 0 { c0a.n() } else { c0b.n() }) > snap[0];
+            let wk1 = pending[1] && (if lw[1] == 0 { c1a.n() } else { c1b.n() }) > snap[1];
+            if (pending[0] || pending[1]) && !(wk0 || wk1) {
+                let h = if pending[0] && (!pending[1] || stamp[0] < stamp[1]) { 0 } else { 1 };
+                oracle!(p, P06, q[h] > sem.permits(), "C06 shared semaphore: the longest-waiting request fits but no pending future holds a wake-up");
+            }
+            if (p & P17) != 0 {
+                if alive[0] { assert!(f0.is_terminated() == done[0], "C17 shared semaphore: is_terminated() differs from 'completed'"); }
+                if alive[1] { assert!(f1.is_terminated() == done[1], "C17 shared semaphore: is_terminated() differs from 'completed'"); }
+            }
+        }
+        s.reached(bits);
+        bits
+    }
+
+    #[no_mangle]
+    pub fn fi_verif_replay_sem_shared(name: &str, cfg: u32, p: u32, s: &mut ScriptSrc<'_>) -> bool {
+        match name {
+            "semsh_hist_noop" => { hist::<NoopLock, _>(s, cfg, 64, p); }
+            "semsh_hist_check" => { hist::<CheckLock, _>(s, cfg, 64, p); }
+            _ => return false,
+        }
+        true
+    }
+
+    #[cfg(kani)]
+    mod proofs {
+        use super::*;
+        macro_rules! hist_proof {
+            ($name:ident, $lock:ty, $n:expr, $p:expr, $cfg:expr, $unw:expr) => {
+                #[kani::proof]
+                #[kani::unwind($unw)]
+                fn $name() {
+                    let bits = hist::<$lock, _>(&mut KaniSrc, $cfg, $n, $p);
+                    kani::cover!(bits & W_PENDING_THEN_READY != 0, "W shared semaphore: a future that had to wait completed");
+                }
+            };
+        }
+        hist_proof!(hist_c05_n4, NoopLock, 4, P05, 2, 5);
+        hist_proof!(hist_c06_n4, NoopLock, 4, P06, 2, 5);
+        hist_proof!(hist_c17_n4, NoopLock, 4, P17, 2, 5);
+        hist_proof!(hist_c01_n4, NoopLock, 4, P01, 2, 5);
+        hist_proof!(hist_c05_n5, NoopLock, 5, P05, 2, 6);
+        hist_proof!(hist_c06_n5, NoopLock, 5, P06, 2, 6);
+        hist_proof!(hist_c17_n5, NoopLock, 5, P17, 2, 6);
+        hist_proof!(hist_c06_n4_check, CheckLock, 4, P06, 2, 5);
+        #[kani::proof]
+        #[kani::unwind(3)]
+        fn repoll_panics() {
+            let sem = GenericSharedSemaphore::<NoopLock>::new(kani::any(), 2);
+            repoll_after_ready(sem.acquire(1));
+        }
+    }
+}
